@@ -451,8 +451,9 @@ void ClipperOffset::DoGroupOffset(Group& group)
 	{
 		// a straight path (2 points) can now also be 'polygon' offset
 		// where the ends will be treated as (180 deg.) joins
-        if (!group.lowest_path_idx.has_value()) delta_ = std::abs(delta_);
-		group_delta_ = (group.is_reversed) ? -delta_ : delta_;
+		// (nb: don't modify delta_ itself, later groups need the caller's value)
+		const double delta = (!group.lowest_path_idx.has_value()) ? std::abs(delta_) : delta_;
+		group_delta_ = (group.is_reversed) ? -delta : delta;
 	}
 	else
 		group_delta_ = std::abs(delta_);// *0.5;
